@@ -43,7 +43,7 @@ Doc == IF shape = "list" THEN ListNodes(0)
        ELSE <<[Node("map", "", "", 0) EXCEPT !.kids = <<2>>, !.keys = <<S("str", "c")>>]>> \o ListNodes(1)
 
 (* ---- keyword paths ---- *)
-Params == {"", "v", "w", "zz", "v,w"}
+Params == {"", "v", "w", "zz", "v,w", "'v'", "'v,w'"}
 KwSegs == {KeywordSeg(inv, kw, p) : inv \in BOOLEAN, kw \in {"max", "min", "unique", "distinct", "has_child"}, p \in Params}
           \cup {KeywordSeg(FALSE, "name", ""), KeywordSeg(FALSE, "parent", ""), KeywordSeg(FALSE, "parent", "0"), KeywordSeg(FALSE, "parent", "2")}
 Paths == IF shape = "wrapped" THEN {<<Seg("KEY", "c"), s>> : s \in KwSegs} \cup {<<Seg("KEY", "c"), Seg("MATCH_ALL", ""), s>> : s \in {KeywordSeg(FALSE, "name", ""), KeywordSeg(FALSE, "parent", "")} \cup {KeywordSeg(FALSE, "parent", n) : n \in {"1", "2", "3"}}}
